@@ -6,8 +6,9 @@ import numpy as np
 from props.common import load_impl, exc_name
 
 RULE = ("accuracy: ALL (validation label vector, prediction vector) pairs up to length 5 quick / 6 thorough over 1-3 classes (exhaustive) plus random longer "
-        "vectors over up to 5 classes with integer, negative and unsorted class sets; ROC-AUC: all binary vectors with both classes present up to length 6/8 plus "
-        "random longer ones; each compared three ways: datascope's elementwise_score / elementwise_null_score / null_score, scikit-learn's accuracy_score / "
+        "vectors over up to 5 classes with integer, negative and unsorted class sets; ROC-AUC: all binary validation vectors with both classes present up to length 6/8 (training classes = both "
+        "classes with all/sampled prediction vectors, and = each single class with its constant prediction) plus random longer ones whose training label vector "
+        "(with repetitions, unsorted) holds both classes or only ONE of the two validation classes; each compared three ways: datascope's elementwise_score / elementwise_null_score / null_score, scikit-learn's accuracy_score / "
         "roc_auc_score on the same predictions, and the Lean model Ds.Util. Non-trivial = >= 2 classes occur in the validation vector and predictions are "
         "neither all right nor all wrong; distinct = distinct (classes, labels, predictions).")
 
@@ -86,6 +87,10 @@ def run(ctx):
             break
 
     def cases_auc():
+        # yields (training label vector, validation labels, predictions); predictions take training classes only (a model cannot predict anything else);
+        # the training classes are a non-empty SUBSET of the two validation classes: both, or only one of them (a coalition / training set in which
+        # one class does not occur is what the neighbor method hands over all the time). Training classes that do NOT occur among the validation
+        # labels are outside the property (the per-class TPR/TNR shares divide by that class's validation count: the metric needs every class there).
         L = 6 if q else 8
         for n in range(2, L + 1):
             for yv in itertools.product(range(2), repeat=n):
@@ -94,20 +99,32 @@ def run(ctx):
                 for pred in itertools.product(range(2), repeat=n):
                     if rng.random() < (0.25 if n >= 6 else 1.0):
                         yield [0, 1], list(yv), list(pred)
-        for _ in range(100 if q else 1000):
+                for c in (0, 1):
+                    yield [c], list(yv), [c] * n
+        for _ in range(140 if q else 1400):
             a, b = sorted(rng.sample(range(-5, 20), 2))
             n = rng.randint(2, 14)
             yv = [rng.choice([a, b]) for _ in range(n)]
             if len(set(yv)) < 2:
                 yv[0], yv[1] = a, b
-            pred = [rng.choice([a, b]) for _ in range(n)]
-            yield [a, b], yv, pred
+            r = rng.random()
+            tcl = [a, b] if r < 0.6 else ([a] if r < 0.8 else [b])
+            if rng.random() < 0.5:
+                y_train = list(tcl)
+            else:
+                # a training label vector with repetitions, in any order, every training class present
+                y_train = tcl + [rng.choice(tcl) for _ in range(rng.randint(0, 5))]
+                rng.shuffle(y_train)
+            pred = [rng.choice(tcl) for _ in range(n)]
+            yield y_train, yv, pred
 
     budget2 = budget + (400 if q else 2400)
-    for classes, yv, pred in cases_auc():
-        y_train = np.array(classes)
+    for ytr, yv, pred in cases_auc():
+        y_train = np.array(ytr)
+        classes = sorted(set(ytr))                    # row order of the element-wise table = np.unique(y_train)
+        vclasses = sorted(set(yv))
         yva = np.array(yv)
-        case = dict(metric="rocauc", classes=classes, y_val=yv, pred=pred)
+        case = dict(metric="rocauc", y_train=ytr, classes=classes, y_val=yv, pred=pred)
         try:
             with warnings.catch_warnings():
                 warnings.simplefilter("error")
@@ -117,9 +134,12 @@ def run(ctx):
         except Exception as e:  # noqa
             ctx.mismatch("element-wise ROC-AUC raised", case, impl=exc_name(e) + repr(e))
             continue
+        if np.asarray(E).shape != (len(classes), len(yv)):
+            ctx.mismatch("element-wise ROC-AUC table is not (training classes) x (validation points)", case, impl=list(np.asarray(E).shape), spec=[len(classes), len(yv)])
+            continue
         n = len(yv)
         got = sum(Fraction(float(E[classes.index(p), j])).limit_denominator(10 ** 9) for j, p in enumerate(pred))
-        pos = classes[1]
+        pos = vclasses[1]
         P = sum(1 for y in yv if y == pos)
         Nn = n - P
         tp = sum(1 for y, p in zip(yv, pred) if y == pos and p == pos)
@@ -128,7 +148,7 @@ def run(ctx):
         sk = Fraction(float(roc_auc_score(yva, (np.array(pred) == pos).astype(float)))).limit_denominator(10 ** 6)
         got_null = sum(Fraction(float(x)).limit_denominator(10 ** 9) for x in N)
         nontriv = 0 < tp + tn < n
-        ctx.case((tuple(classes), tuple(yv), tuple(pred)), nontrivial=nontriv, sample=case, metric="rocauc", n=n)
+        ctx.case((tuple(ytr), tuple(yv), tuple(pred)), nontrivial=nontriv, sample=case, metric="rocauc", n=n, train_classes=len(classes))
         if abs(got - want) > Fraction(1, 10 ** 8) or abs(sk - want) > Fraction(1, 10 ** 5):
             ctx.mismatch("element-wise ROC-AUC scores do not sum to the ROC-AUC of the hard predictions", case, impl=str(got), spec=dict(formula=str(want), sklearn=str(sk)))
             continue
@@ -137,6 +157,9 @@ def run(ctx):
             continue
         if ctx.driver is not None and (n >= 5 or rng.random() < 0.1):
             m = ctx.model({"op": "util", "classes": classes, "yTest": yv, "pred": pred})["ok"]
+            if classes != vclasses:
+                # the driver takes the positive class of aucHard from its "classes" argument: ask for it with the validation classes
+                m["aucHard"] = ctx.model({"op": "util", "classes": vclasses, "yTest": yv, "pred": pred})["ok"]["aucHard"]
             ok = m["aucElem"] is not None and m["aucNullElem"] is not None and m["aucHard"] is not None
             if ok:
                 mE = [[Fraction(x) for x in row] for row in m["aucElem"]]
